@@ -39,6 +39,12 @@ def main():
                 r = json.load(open(os.path.join(d, "result.json")))
                 for pid, x in r.get("results", {}).items():
                     res[f"{pid}:{r.get('tier')}:seed{r.get('seed')}"] = {"verdict": x["verdict"], "signatures": x.get("signatures", []), "wall_s": x.get("wall_s"), "repo_head": r.get("repo_head")}
+            old_hist = None
+            if os.path.exists(os.path.join(out, "meta.json")):
+                try:
+                    old_hist = json.load(open(os.path.join(out, "meta.json"))).get("history")
+                except Exception:
+                    pass
             new = {
                 "property": meta.get("property", prop),
                 "summary": meta.get("summary"),
@@ -55,6 +61,8 @@ def main():
                 },
                 "checks_run": res,
             }
+            if old_hist:
+                new["history"] = old_hist
             json.dump(new, open(os.path.join(out, "meta.json"), "w"), indent=1)
             print(f"{prop}-{v}: imported; checks: " + ", ".join(f"{k}={v['verdict']}" for k, v in res.items()))
 
